@@ -903,6 +903,7 @@ def extract() -> dict[str, Any]:
     res["ref_slots"] = fixup_ref_slots(ex, res)
     res["json_field_map"] = json_field_map(ex, res["names"])
     res["json_schemas"] = {c: js for c in sorted(res["names"]) if (js := derived_json_schema(res, c)) is not None}
+    res["json_op_shapes"] = json_op_shapes(ex, res)
     res["class_names"] = sorted(ex.classes)
     return res
 
@@ -1155,6 +1156,72 @@ def derived_json_schema(res: dict[str, Any], cls: str) -> list[tuple[str, str]] 
     if len({k for k, _ in out}) != len(out):
         return None     # two binary fields share one JSON key (TypeInfo.abstract_attributes): not a keyed schema
     return out
+
+
+def json_value_shape(v: ast.AST) -> str:
+    """shape of the expression serialize() stores under a key (fail closed: anything unrecognised is 'unknown')"""
+    def is_ser(c: ast.AST) -> bool:
+        return isinstance(c, ast.Call) and isinstance(c.func, ast.Attribute) and c.func.attr == "serialize" and not c.args
+    if isinstance(v, ast.Call) and src(v.func) == "get_flags":
+        return "flags"
+    if is_ser(v):
+        return "nested"
+    if isinstance(v, ast.IfExp):
+        a, b = v.body, v.orelse
+        none_a = isinstance(a, ast.Constant) and a.value is None
+        none_b = isinstance(b, ast.Constant) and b.value is None
+        if (none_a and is_ser(b)) or (none_b and is_ser(a)):
+            return "opt-nested"
+        return "unknown"
+    if isinstance(v, ast.ListComp) and len(v.generators) == 1 and not v.generators[0].ifs:
+        e = v.elt
+        if is_ser(e):
+            return "list-nested"
+        if isinstance(e, ast.List) and len(e.elts) == 2 and isinstance(e.elts[0], ast.Name) and is_ser(e.elts[1]):
+            return "pairs-nested"
+        if isinstance(e, ast.Call) and src(e.func) == "int":
+            return "list-plain"
+        if isinstance(e, ast.Name):
+            return "list-plain"
+        return "unknown"
+    if isinstance(v, ast.DictComp) and is_ser(v.value):
+        return "object-nested"
+    if isinstance(v, ast.Call) and src(v.func) in ("sorted", "list") and len(v.args) == 1 and not any(isinstance(x, ast.Call) for x in ast.walk(v.args[0])):
+        return "list-plain"
+    if isinstance(v, (ast.Attribute, ast.Name)) or (isinstance(v, ast.Call) and src(v.func) == "int"):
+        return "plain"
+    return "unknown"
+
+
+def json_op_shapes(ex: Extractor, res: dict[str, Any]) -> dict[str, list[tuple[str, str, str]]]:
+    """per class with a derived JSON schema: (key, kind of the derived op, shape extracted from serialize())"""
+    out: dict[str, list[tuple[str, str, str]]] = {}
+    for cls, js in sorted(res["json_schemas"].items()):
+        sfn = ex.methods.get((cls, "serialize"))
+        shapes: dict[str, str] = {}
+        if sfn is not None:
+            for n in ast.walk(sfn):
+                if isinstance(n, ast.Dict):
+                    for k, v in zip(n.keys, n.values):
+                        if isinstance(k, ast.Constant) and isinstance(k.value, str):
+                            shapes[k.value] = json_value_shape(v)
+                if isinstance(n, ast.Assign) and isinstance(n.targets[0], ast.Subscript) and isinstance(n.targets[0].slice, ast.Constant) \
+                        and isinstance(n.targets[0].slice.value, str):
+                    shapes[n.targets[0].slice.value] = json_value_shape(n.value)
+        rows = []
+        for key, op_ in js:
+            kind = op_.split(" [")[0].replace("(", "").replace(")", "")
+            rows.append((key, kind, shapes.get(key, "unknown")))
+        out[cls] = rows
+    return out
+
+
+SHAPE_OK = {
+    "JI": {"plain"}, "JS": {"plain"}, "JB": {"plain"}, "JOpt JS": {"plain"}, "JOpt JI": {"plain"},
+    "JList JS": {"plain", "list-plain"}, "JList JI": {"plain", "list-plain"},
+    "JNested": {"nested"}, "JOpt JNested": {"opt-nested"}, "JList JNested": {"list-nested"},
+    "JPairs JNested": {"pairs-nested"}, "JFlagsNames": {"flags"},
+}
 
 
 def zs(x: str) -> str:
@@ -1420,6 +1487,16 @@ def render(res: dict[str, Any]) -> str:
     tagged = [(c, strip(res["schemas"][c][0])[0][1]) for c in sorted(res["json_schemas"])
               if strip(res["schemas"][c][0]) and strip(res["schemas"][c][0])[0][0] == "Tag" and c in res.get("class_names", [])
               and strip(res["schemas"][c][0])[-1] == ("Tag", "END_TAG")]
+    out.append("(* per class and key: kind of the JSON op derived from the binary op, and the shape extracted from the expression")
+    out.append("   serialize() stores under that key *)")
+    out.append("Definition json_op_shapes : list (string * list (string * (string * string))) := [")
+    out.append(";\n".join(f'  ("{c}"%string, [' + "; ".join(f'("{k}"%string, ("{d}"%string, "{e}"%string))' for k, d, e in rows) + "])"
+                          for c, rows in sorted(res["json_op_shapes"].items())))
+    out.append("].")
+    conf = [c for c, rows in sorted(res["json_op_shapes"].items()) if all(e in SHAPE_OK.get(d, set()) for _, d, e in rows)]
+    out.append("Definition json_ops_confirmed : list string := " + sl(conf) + ".")
+    out.append("Definition json_ops_derived_only : list string := " + sl([c for c in sorted(res["json_op_shapes"]) if c not in conf]) + ".")
+    out.append("")
     out.append("(* object classes with a keyed JSON schema: (binary class tag, (value of the \".class\" key, schema)) *)")
     out.append("Definition json_classes : list (Z * (list Z * list (list Z * jop))) := [")
     out.append(";\n".join(f"  ({t}, ({zs(c)}, js_{c}))" for c, t in tagged))
